@@ -20,7 +20,7 @@ type Case struct {
 }
 
 func gen(t *rapid.T) Case {
-	return Case{Data: wm.GenOSM(t, wm.OSMGenConfig{MaxNodes: 8, MaxWays: 5, MaxClosed: 4, MaxRelations: 5, Clockwise: true, Multipolygons: true, Network: true, GeometryKeys: true, MixedMembers: true})}
+	return Case{Data: wm.GenOSM(t, wm.OSMGenConfig{MaxNodes: 8, MaxWays: 5, MaxClosed: 4, MaxRelations: 5, Clockwise: true, Multipolygons: true, Network: true, GeometryKeys: true, MixedMembers: true, AllKeys: true})}
 }
 
 // the documented mapping of OSM keys to searchable b6 keys
@@ -251,6 +251,33 @@ func check(c Case) vlib.Outcome {
 				}
 			}
 		}
+		// searchable keys: a search by a mapped key finds exactly the features the rules give that key
+		searchable := map[string]bool{}
+		for _, mk := range mapping {
+			searchable[mk] = true
+		}
+		mks := make([]string, 0, len(searchable))
+		for mk := range searchable {
+			mks = append(mks, mk)
+		}
+		sort.Strings(mks)
+		for _, mk := range mks {
+			var expect, found []string
+			for _, id := range ids {
+				if _, ok := want[id].tags[mk]; ok {
+					expect = append(expect, id.String())
+				}
+			}
+			fs := w.FindFeatures(b6.Keyed{Key: mk})
+			for fs.Next() {
+				found = append(found, fs.FeatureID().String())
+			}
+			sort.Strings(expect)
+			sort.Strings(found)
+			if fmt.Sprint(expect) != fmt.Sprint(found) {
+				return vlib.Fail("%s world: a search for the key %s finds %v, the rules give that key to %v", world, mk, found, expect)
+			}
+		}
 		var extra []string
 		if err := w.EachFeature(func(f b6.Feature, _ int) error {
 			if _, ok := want[f.FeatureID()]; !ok {
@@ -276,6 +303,6 @@ func check(c Case) vlib.Outcome {
 
 func TestProp(t *testing.T) {
 	vlib.Run(t, vlib.Config{ID: "C29", Name: "osm-rules", CaseTimeout: 120e9,
-		Rule: "OSM data with robustly valid geometry: 2-8 free nodes, 0-5 open ways, 0-4 closed ways drawn counter-clockwise or clockwise, 0-5 relations (multipolygons over closed and occasionally open ways with outer/inner roles; plain relations over nodes, open ways, closed ways, relations, multipolygons and absent members), tags in and out of the searchable mapping; the in-memory world (always) and the compact world (half of the cases in quick) are compared with an independent implementation of the stated rules: a point per node, a path per way over its nodes (stored counter-clockwise, no tags if closed), an area per closed way with the way's tags, an area per assemblable multipolygon with polygons split at outer members, a relation per other relation whose members point at areas for closed ways and multipolygons; plus nothing else is enumerated; non-trivial = a relation with members or an area with >= 2 polygons"},
+		Rule: "OSM data with robustly valid geometry: 2-8 free nodes, 0-5 open ways, 0-4 closed ways drawn counter-clockwise or clockwise, 0-5 relations (multipolygons over closed and occasionally open ways with outer/inner roles; plain relations over nodes, open ways, closed ways, relations, multipolygons and absent members), tags drawn from every key of the searchable mapping and from keys that resemble them without being in it; the in-memory world (always) and the compact world (half of the cases in quick) are compared with an independent implementation of the stated rules: a point per node, a path per way over its nodes (stored counter-clockwise, no tags if closed), an area per closed way with the way's tags, an area per assemblable multipolygon with polygons split at outer members, a relation per other relation whose members point at areas for closed ways and multipolygons; a search by each searchable key finds exactly the features the rules give it; plus nothing else is enumerated; non-trivial = a relation with members or an area with >= 2 polygons"},
 		gen, check)
 }
